@@ -825,6 +825,8 @@ MUTANTS = [
         m_stack_state.store(stack_state::notified, std::memory_order_relaxed);""")]),
     dict(name='c01-seed4-execute-tests-the-slot-before-registering', prop='C01', clause='D9', edits=[('src/tbb/arena.cpp', '                a->my_exit_monitors.prepare_wait(waiter);\n                if (!wo.continue_execution()) {\n                    a->my_exit_monitors.cancel_wait(waiter);\n                    break;\n                }\n                index2 = a->occupy_free_slot</*as_worker*/false>(*td);\n                if (index2 != arena::out_of_arena) {\n                    a->my_exit_monitors.cancel_wait(waiter);\n                    nested_arena_context scope(*td, *a, index2 );', '                index2 = a->occupy_free_slot</*as_worker*/false>(*td);\n                if (index2 != arena::out_of_arena) {\n                    nested_arena_context scope(*td, *a, index2 );'), ('src/tbb/arena.cpp', '                    break;\n                }\n                a->my_exit_monitors.commit_wait(waiter);', '                    break;\n                }\n                a->my_exit_monitors.prepare_wait(waiter);\n                if (!wo.continue_execution()) {\n                    a->my_exit_monitors.cancel_wait(waiter);\n                    break;\n                }\n                a->my_exit_monitors.commit_wait(waiter);')]),
     dict(name='c02-seed4-execute-tests-the-slot-before-registering', prop='C02', clause='D2', edits=[('src/tbb/arena.cpp', '                a->my_exit_monitors.prepare_wait(waiter);\n                if (!wo.continue_execution()) {\n                    a->my_exit_monitors.cancel_wait(waiter);\n                    break;\n                }\n                index2 = a->occupy_free_slot</*as_worker*/false>(*td);\n                if (index2 != arena::out_of_arena) {\n                    a->my_exit_monitors.cancel_wait(waiter);\n                    nested_arena_context scope(*td, *a, index2 );', '                index2 = a->occupy_free_slot</*as_worker*/false>(*td);\n                if (index2 != arena::out_of_arena) {\n                    nested_arena_context scope(*td, *a, index2 );'), ('src/tbb/arena.cpp', '                    break;\n                }\n                a->my_exit_monitors.commit_wait(waiter);', '                    break;\n                }\n                a->my_exit_monitors.prepare_wait(waiter);\n                if (!wo.continue_execution()) {\n                    a->my_exit_monitors.cancel_wait(waiter);\n                    break;\n                }\n                a->my_exit_monitors.commit_wait(waiter);')]),
+    dict(name='c20-seed5-isolated-waits-skip-the-resume-stream', prop='C20', clause='D2', edits=[(TDH, '    bool stealing_is_allowed = can_steal();\n', '    bool stealing_is_allowed = can_steal();\n    const bool streams_allowed = isolation == no_isolation;\n'), (TDH, '        else if ((t = get_stream_or_critical_task(ed, a, resume_stream, resume_hint, isolation, critical_allowed))) {', '        else if (streams_allowed\n                 && (t = get_stream_or_critical_task(ed, a, resume_stream, resume_hint, isolation, critical_allowed))) {'), (TDH, '        else if (fifo_allowed && isolation == no_isolation\n                 && (t = get_stream_or_critical_task(ed, a, fifo_stream, fifo_hint, isolation, critical_allowed))) {', '        else if (streams_allowed && fifo_allowed\n                 && (t = get_stream_or_critical_task(ed, a, fifo_stream, fifo_hint, isolation, critical_allowed))) {')]),
+    dict(name='c20-resume-stream-gated-by-isolation-directly', prop='C20', clause='D2', edits=[(TDH, '        else if ((t = get_stream_or_critical_task(ed, a, resume_stream, resume_hint, isolation, critical_allowed))) {', '        else if (isolation == no_isolation\n                 && (t = get_stream_or_critical_task(ed, a, resume_stream, resume_hint, isolation, critical_allowed))) {')]),
     dict(name='c20-resume-advertised-with-wakeup-only', prop='C20', clause='D2', edits=[('src/tbb/task.cpp',
         "        a.advertise_new_work<arena::work_enqueued>();", "        a.advertise_new_work<arena::wakeup>();")]),
     dict(name='c20-mandatory-worker-released-over-a-pending-resume', prop='C20', clause='D2', edits=[('src/tbb/arena.cpp',
@@ -1642,6 +1644,8 @@ MUTANTS += [
 ]
 
 BENIGN = [
+    dict(name='c20-b-fifo-gate-through-a-local', prop='C20', edits=[(TDH, '    bool stealing_is_allowed = can_steal();\n', '    bool stealing_is_allowed = can_steal();\n    const bool streams_allowed = isolation == no_isolation;\n'), (TDH, '        else if (fifo_allowed && isolation == no_isolation\n                 && (t = get_stream_or_critical_task(ed, a, fifo_stream, fifo_hint, isolation, critical_allowed))) {', '        else if (streams_allowed && fifo_allowed\n                 && (t = get_stream_or_critical_task(ed, a, fifo_stream, fifo_hint, isolation, critical_allowed))) {')]),
+    dict(name='c16-b-fifo-gate-through-a-local', prop='C16', edits=[(TDH, '    bool stealing_is_allowed = can_steal();\n', '    bool stealing_is_allowed = can_steal();\n    const bool streams_allowed = isolation == no_isolation;\n'), (TDH, '        else if (fifo_allowed && isolation == no_isolation\n                 && (t = get_stream_or_critical_task(ed, a, fifo_stream, fifo_hint, isolation, critical_allowed))) {', '        else if (streams_allowed && fifo_allowed\n                 && (t = get_stream_or_critical_task(ed, a, fifo_stream, fifo_hint, isolation, critical_allowed))) {')]),
     # known findings must stay matched when unrelated lines move
     dict(name='c16-b-tag-stored-before-the-context', prop='C16', edits=[(TDH, '            ed.context = task_accessor::context(*t);\n            ed.isolation = task_accessor::isolation(*t);\n            a.my_observers.notify_entry_observers(tls.my_last_observer, tls.my_is_worker);', '            ed.isolation = task_accessor::isolation(*t);\n            a.my_observers.notify_entry_observers(tls.my_last_observer, tls.my_is_worker);\n            ed.context = task_accessor::context(*t);')]),
     dict(name='c16-b-tag-through-a-local', prop='C16', edits=[(TDH, '            ed.context = task_accessor::context(*t);\n            ed.isolation = task_accessor::isolation(*t);\n            a.my_observers.notify_entry_observers(tls.my_last_observer, tls.my_is_worker);', '            ed.context = task_accessor::context(*t);\n            const isolation_type tag = task_accessor::isolation(*t);\n            ed.isolation = tag;\n            a.my_observers.notify_entry_observers(tls.my_last_observer, tls.my_is_worker);')]),
